@@ -431,8 +431,26 @@ fn c11_long(ctx: &mut Ctx, comp: &CgrComputer, s_size: usize, seq: &[u8]) {
     if full.len() != seq.len() {
         return viol(ctx, "point-count", seq.len(), format!("cgr long: {} points for {} bases", full.len(), seq.len()), argv);
     }
+    // the midpoint rule itself, step by step on the routine's own points: p_i = (corner_i + p_(i-1)) / 2.
+    // In binary floating point this is exact up to one rounding of the sum, and any correct evaluation order
+    // (halving first, or adding first) gives the same double, so equality is demanded.
+    let s = s_size as f64;
+    let mut prev = (s / 2.0, s / 2.0);
+    for (i, &b) in seq.iter().enumerate() {
+        let (cx, cy) = match model::class(b).unwrap() {
+            0 => (0.0, 0.0),
+            1 => (0.0, s),
+            2 => (s, s),
+            _ => (s, 0.0),
+        };
+        let exp = ((cx + prev.0) / 2.0, (cy + prev.1) / 2.0);
+        if full[i] != exp {
+            return viol(ctx, "midpoint-rule", seq.len(), format!("cgr on an input of {} bases S={s_size}: point {i} = ({:e},{:e}) is not the midpoint of point {} = ({:e},{:e}) and the corner of base {:?}, which is ({:e},{:e})", seq.len(), full[i].0, full[i].1, i as i64 - 1, prev.0, prev.1, b as char, exp.0, exp.1), argv);
+        }
+        prev = full[i];
+    }
     // prefix determinism
-    for cut in [1usize, 2, 3, 10, 53, 54, 100, 1000, seq.len() - 1] {
+    for cut in [1usize, 2, 3, 10, 53, 54, 100, 1000, 4095, 4096, 4097, 8192, 8193, seq.len() - 1] {
         if cut >= seq.len() {
             continue;
         }
@@ -443,7 +461,6 @@ fn c11_long(ctx: &mut Ctx, comp: &CgrComputer, s_size: usize, seq: &[u8]) {
         }
     }
     // containment: the last j bases confine point i to a sub-square of side S/2^j (exact in f64 for j <= 20, S <= 2^20)
-    let s = s_size as f64;
     for i in 0..seq.len() {
         for j in 1..=20usize.min(i + 1) {
             let mut lx = 0.0f64;
@@ -526,6 +543,10 @@ pub fn cgr_record_sets() -> Vec<(&'static str, Vec<Vec<u8>>)> {
     sets.push(("all-len-le-3", strings(S4, 1, 3)));
     let many: Vec<Vec<u8>> = (0..500usize).map(|i| model::text_of((i * 2654435761usize % 4096) as u128, 6)[..(1 + i % 6)].to_vec()).collect();
     sets.push(("five-hundred", many));
+    // one long record followed by short ones: with one record per batch a later batch finishes before the first
+    let mut lf = vec![fill(b"ACGGTCA", 200_000)];
+    lf.extend(strings(S4, 1, 2).into_iter().take(6));
+    sets.push(("long-first", lf));
     sets.push(("bad-second", vec![b"ACG".to_vec(), b"ANG".to_vec(), b"T".to_vec()]));
     sets.push(("bad-last", vec![b"ACG".to_vec(), b"TT".to_vec(), b"TTx".to_vec()]));
     sets
@@ -612,13 +633,39 @@ pub fn c11(ctx: &mut Ctx) {
     ctx.rep.count("cases.rejection", n);
     // long periodic inputs
     let mut sh = ctx.shard;
-    for u in strings(S4, 1, 3) {
-        for len in [60usize, 1000, ctx.pick(2000, 5000)] {
+    // lengths beyond the block sizes a routine might plausibly switch strategy at (powers of two up to 64 Ki)
+    let long_lens: Vec<usize> = if ctx.thorough() { vec![60, 1000, 4097, 5000, 8193, 16385, 40_000, 70_000] } else { vec![60, 1000, 4097, 5000, 8193, 10_000] };
+    let mut units: Vec<Vec<u8>> = strings(S4, 1, 3);
+    units.push(b"acgu".to_vec());
+    units.push(b"ttttttttttttttttttttttttttttttttttttttttttttttttttttttttttttttttttttttttttttttttttttttttttttttttttttc".to_vec());
+    for u in units {
+        for &len in &long_lens {
             for (sz, c) in [&comps[0], &comps[5], &comps[6]] {
                 if sh.mine() {
                     c11_long(ctx, c, *sz, &fill(&u, len));
                 }
             }
+        }
+    }
+    // non-periodic long inputs with long single-letter runs placed across the power-of-two positions
+    for seed in 0..ctx.pick(4u64, 16) {
+        for (sz, c) in [&comps[0], &comps[3], &comps[6]] {
+            if !sh.mine() {
+                continue;
+            }
+            let mut x = seed.wrapping_mul(0x9E37_79B9_7F4A_7C15) | 1;
+            let mut sq: Vec<u8> = (0..12_000usize)
+                .map(|_| {
+                    x = x.wrapping_mul(6364136223846793005).wrapping_add(1442695040888963407);
+                    b"ACGTacgu"[((x >> 33) % 8) as usize]
+                })
+                .collect();
+            for (at, ch) in [(4000usize, b'A'), (8100, b'c'), (2000, b't'), (10_000, b'G')] {
+                for j in 0..200 {
+                    sq[at + j] = ch;
+                }
+            }
+            c11_long(ctx, c, *sz, &sq);
         }
     }
     // file path
@@ -782,6 +829,11 @@ pub fn c12(ctx: &mut Ctx) {
         ("five-with-empty", vec![b"ACGAA".to_vec(), b"".to_vec(), b"TN".to_vec(), b"GGCATT".to_vec(), b"acgtacgt".to_vec()]),
         ("all-len-le-3", strings(S5, 1, 3)),
         ("three-hundred", (0..300usize).map(|i| model::text_of((i * 2654435761usize % 65536) as u128, 8)[..(1 + i % 8)].to_vec()).collect()),
+        ("long-first", {
+            let mut lf = vec![fill(b"ACGGTCAN", 300_000)];
+            lf.extend(strings(S4, 1, 2).into_iter().take(6));
+            lf
+        }),
     ];
     for (tag, recs) in &sets {
         for k in [1usize, 2, 3, 5] {
